@@ -93,13 +93,20 @@ pub open spec fn canonical(x: u64) -> bool { exists|c: A5Cell| valid(c) && enc(c
 // ------------------------------------------------------------------------------------------
 // bit-vector facts
 // ------------------------------------------------------------------------------------------
-pub proof fn bv_shr_shr(x: u64, a: u64, b: u64)
-    requires a + b < 64,
+pub proof fn bv_shr_step(x: u64, a: u64, b: u64)
+    requires b == 1 || b == 2, a + b < 64,
     ensures (x >> a) >> b == x >> ((a + b) as u64),
 {
-    assert(a < 64 && b < 64 && add(a, b) < 64 ==> (x >> a) >> b == x >> add(a, b)) by (bit_vector);
+    assert(a < 63 ==> (x >> a) >> 1 == x >> add(a, 1)) by (bit_vector);
+    assert(a < 62 ==> (x >> a) >> 2 == x >> add(a, 2)) by (bit_vector);
 }
 
+pub proof fn bv_shr_even(x: u64, a: u64, b: u64)
+    requires a + b <= 28,
+    ensures (x >> ((2 * a) as u64)) >> ((2 * b) as u64) == x >> ((2 * (a + b)) as u64),
+{
+    assert(a <= 28 && b <= 28 && add(a, b) <= 28 ==> (x >> mul(2, a)) >> mul(2, b) == x >> mul(2, add(a, b))) by (bit_vector);
+}
 
 pub proof fn bv_ser_fields(code: u64, s: u64, hb: u64)
     requires code < 64, hb <= 56, s < (1u64 << hb),
